@@ -175,7 +175,7 @@ EXPORT errno_t _getenv_s_chk(size_t *restrict len, char *restrict dest,
 #else
             *len = len1;
 #endif
-        if (dest)
+        if (dest && dmax) /* maxsize 0 only asks for the length */
             strcpy_s(dest, dmax, buf);
     }
 
